@@ -231,6 +231,16 @@ def build_harness(race=False):
     return True, "\n".join(outs)
 
 
+def build_cli():
+    """Rebuilds the cdi and validate binaries from /repo's working tree (C19). Returns an error string or None."""
+    for name, sub in (("cdi", "cmd/cdi"), ("validate", "cmd/validate")):
+        cmd = ["go", "build", "-o", os.path.join(BUILD, name), "."]
+        rc, out, dt = run(cmd, cwd=os.path.join(REPO, sub), env=GOENV, timeout=1800)
+        if rc != 0:
+            return "cannot build %s from %s: %s" % (name, sub, out[-2000:])
+    return None
+
+
 def go_build(name, pkg, flags=(), cwd=None, tags="verif"):
     cmd = ["go", "build", "-tags", tags] + list(flags) + ["-o", os.path.join(BUILD, name), pkg]
     rc, out, dt = run(cmd, cwd=cwd or HARNESS, env=GOENV, timeout=1800)
